@@ -38,6 +38,11 @@ Theorem C02_wavelet : forall (R : StarRing) level L n (flo fhi glo ghi : nat -> 
 Proof. exact wavedec_wf. Qed.
 Print Assumptions C02_wavelet.
 
+Theorem C02_wavelet_2d : forall (R : StarRing) level L n1 n2 (flo fhi glo ghi : nat -> R), (2 <= L)%nat -> (1 <= n1)%nat -> (1 <= n2)%nat ->
+  wf (wavedec2_op level L n1 n2 flo fhi glo ghi).
+Proof. exact wavedec2_wf. Qed.
+Print Assumptions C02_wavelet_2d.
+
 (* N-D: an operator applied along one axis of a row-major (pre, n, post) tensor stays linear *)
 Theorem C02_along_axis : forall (R : StarRing) pre post (A : linop R),
   (0 < post)%nat -> (0 < dom A)%nat -> (0 < ran A)%nat -> wf A -> wf (along pre post A).
